@@ -191,7 +191,7 @@ void genGroup(Choices& c, Case& k, vh::Stats& st) {
 std::string nLabel(int n) { return n >= 8 ? "N>=8" : "N=" + std::to_string(n); }
 std::string nNum(int n) { return n >= 8 ? ">=8" : std::to_string(n); }
 
-std::string judge(const SearchSpec& s, const us::Result& r, vh::Stats& st, bool& decisive) {
+std::string judge(const SearchSpec& s, const us::Result& r, vh::Stats& st, bool& decisive, const std::function<Value()>& sample) {
     ref::Pos root;
     if (!ref::fromFEN(s.fen, root)) return "";
     Oracle oc(root);
@@ -221,7 +221,7 @@ std::string judge(const SearchSpec& s, const us::Result& r, vh::Stats& st, bool&
             int n = fin.inf.score;
             int v = n == 1 ? (ref::isMate(c) ? 1 : 0) : lostWithin(c, n - 1);
             if (v == 0) return "final score 'mate " + std::to_string(n) + "' but after bestmove " + r.best + " the opponent is not mated within " + std::to_string(n - 1) + " more moves (" + ref::toFEN(c) + ")";
-            if (v == 1) { decisive = true; st.cls("bestmove keeps the announced mate (verified)"); } else st.count("inconclusive: bestmove check");
+            if (v == 1) { decisive = true; st.clsSample("bestmove keeps the announced mate (verified)", sample); } else st.count("inconclusive: bestmove check");
         } else st.count("final pv does not start with bestmove (not judged)");
     }
     // (3) a completed search ending with a losing mate score
@@ -229,12 +229,12 @@ std::string judge(const SearchSpec& s, const us::Result& r, vh::Stats& st, bool&
         int n = -fin.inf.score;
         int v = lostWithin(root, n);
         if (v == 0) return "completed search ended with '" + fin.raw.substr(0, 120) + "' but the opponent cannot force mate within " + std::to_string(n) + " moves against every defence";
-        if (v == 1) { decisive = true; st.cls("final 'mate -N' verified"); st.count(std::string("verified final mate -") + nNum(n)); } else st.count("inconclusive: losing score check");
+        if (v == 1) { decisive = true; st.clsSample("final 'mate -N' verified", sample); st.count(std::string("verified final mate -") + nNum(n)); } else st.count("inconclusive: losing score check");
     }
     // (4) mate in one
     if (!m1.empty()) {
         std::set<std::string> kinds; for (auto& m : m1) kinds.insert(m.kind);
-        for (auto& kd : kinds) st.cls("root with mate in 1: " + kd);
+        for (auto& kd : kinds) st.clsSample("root with mate in 1: " + kd, sample);
         st.cls("root with mate in 1");
         decisive = true;
         if (!(fin.inf.mate && fin.inf.score == 1 && !fin.inf.upper))
@@ -263,13 +263,15 @@ std::string runCase(const Case& k, vh::Stats& st, bool& inconclusive, Value& tai
         if (r.timeout || !r.answered) { inconclusive = true; st.count("inconclusive: no answer in time"); break; }
         st.count("searches");
         bool decisive = false;
-        std::string v = judge(s, r, st, decisive);
+        auto sample = [&]() { Value o = Value::object(); o["fen"] = s.fen; o["go"] = "depth " + std::to_string(s.depth); o["origin"] = s.origin; o["hash"] = k.hash; o["threads"] = k.threads;
+                              o["nullmove"] = k.nullmove; o["net"] = k.net; o["search_no_in_process"] = idx; if (!r.pv.empty()) o["final_line"] = r.pv.back().raw.substr(0, 160); o["bestmove"] = r.best; return o; };
+        std::string v = judge(s, r, st, decisive, sample);
         if (refdtm::tables().verbose) fprintf(stderr, "search %lldms judge %lldms T%d d%d %s %s\n", t1 - t0, uci::nowMs() - t1, k.threads, s.depth, s.origin.c_str(), s.fen.c_str());
         if (decisive) {
             st.nt(s.fen + "|" + std::to_string(s.depth) + "|" + std::to_string(k.hash) + "|" + std::to_string(k.threads) + "|" + (k.nullmove ? "n" : "-") + "|" + std::to_string(k.net));
             st.cls("decisive search");
-            st.cls(std::string("decisive: ") + (s.origin.rfind("dtm", 0) == 0 ? "dtm domain" : s.origin.rfind("tmpl", 0) == 0 ? "template domain" : "game/placement domain"));
-            if (idx >= 2) st.cls("decisive: after a related search in the same process");
+            st.clsSample(std::string("decisive: ") + (s.origin.rfind("dtm", 0) == 0 ? "dtm domain" : s.origin.rfind("tmpl", 0) == 0 ? "template domain" : "game/placement domain"), sample);
+            if (idx >= 2) st.clsSample("decisive: after a related search in the same process", sample);
             if (k.threads > 1) st.cls("decisive: Threads > 1");
             if (k.hash == 1) st.cls("decisive: Hash 1");
             if (!k.nullmove) st.cls("decisive: UseNullMove off");
